@@ -5,10 +5,6 @@
    flattening.  Used as the hypothesis of the C04 stage theorem
    C04_no_panic_wf_tokens_partial.
 
-   It EXCLUDES the F1 class: an `{{~else if ..}}` chain tag whose first child
-   token is a leading tilde (constructor cp_cons requires invert_tag_item
-   directly after the invert_chain_tag token).
-
    Reading guide: a token is (rule, start, end).
      value_toks e l   tokens of one parameter value whose root token ends at e
      name_toks e l    tokens of a tag/subexpression name whose root ends at e
@@ -70,6 +66,10 @@ Definition deco_pair (rs re : rule) : Prop :=
   (rs = R_decorator_block_start /\ re = R_decorator_block_end) \/
   (rs = R_partial_block_start /\ re = R_partial_block_end).
 
+(* the optional `~` in front of the `else` of a chained else tag *)
+Definition opt_tilde (tl : list tok) : Prop :=
+  tl = [] \/ exists s e, tl = [(R_leading_tilde_to_omit_whitespace, s, e)].
+
 (* items lo hi l : l is the token list of a sequence of template items; the
    previous main-level token ended at lo, the last one of l ends at hi *)
 Inductive items : N -> N -> list tok -> Prop :=
@@ -85,10 +85,11 @@ with item : N -> N -> list tok -> Prop :=
     m3 <= s9 -> s9 <= e9 -> tag_toks e9 l9 ->
     item lo e9 (((R_helper_block_start, s0, e0) :: l0) ++ body ++ chains ++ inv
                 ++ (R_helper_block_end, s9, e9) :: l9)
-| i_rawblock lo s0 e0 l0 s1 e1 e2 l2 :
-    lo <= s0 -> s0 <= e0 -> tag_toks e0 l0 -> e0 <= s1 -> s1 <= e1 -> e1 <= e2 -> tag_toks e2 l2 ->
+| i_rawblock lo s0 e0 l0 s1 e1 s2 e2 l2 :
+    lo <= s0 -> s0 <= e0 -> tag_toks e0 l0 -> e0 <= s1 -> s1 <= e1 -> e1 <= s2 -> s2 <= e2 ->
+    tag_toks e2 l2 ->
     item lo e2 (((R_raw_block_start, s0, e0) :: l0)
-                ++ (R_raw_block_text, s1, e1) :: (R_raw_block_end, e1, e2) :: l2)
+                ++ (R_raw_block_text, s1, e1) :: (R_raw_block_end, s2, e2) :: l2)
 | i_dblock lo rs re s0 e0 l0 body m1 s9 e9 l9 :
     deco_pair rs re -> lo <= s0 -> s0 <= e0 -> tag_toks e0 l0 -> tmpl e0 m1 body ->
     m1 <= s9 -> s9 <= e9 -> tag_toks e9 l9 ->
@@ -98,9 +99,10 @@ with tmpl : N -> N -> list tok -> Prop :=
     tmpl lo hi ((R_template, s, e) :: body)
 with chain_parts : N -> N -> list tok -> Prop :=
 | cp_nil lo : chain_parts lo lo []
-| cp_cons lo s e si ei l body mid hi rest :
-    lo <= s -> s <= e -> sub_toks e l -> tmpl e mid body -> chain_parts mid hi rest ->
-    chain_parts lo hi (((R_invert_chain_tag, s, e) :: (R_invert_tag_item, si, ei) :: l) ++ body ++ rest)
+| cp_cons lo s e tl si ei l body mid hi rest :
+    lo <= s -> s <= e -> opt_tilde tl -> sub_toks e l -> tmpl e mid body -> chain_parts mid hi rest ->
+    chain_parts lo hi (((R_invert_chain_tag, s, e) :: tl ++ (R_invert_tag_item, si, ei) :: l)
+                       ++ body ++ rest)
 with inv_part : N -> N -> list tok -> Prop :=
 | ip_none lo : inv_part lo lo []
 | ip_some lo s e l body hi : lo <= s -> s <= e -> tag_toks e l -> tmpl e hi body ->
